@@ -90,6 +90,33 @@ Definition span_to_event (service : str) (o : otlp_span) : span :=
          (o_start o) (o_end o) (sub64 (o_end o) (o_start o))
          (match o_status o with Some c => c | None => 3 end).
 
+(* ProcessTraceIngest: an export request is a list of ResourceSpans; each has an optional Resource
+   (None = nil) whose attributes are (key, string value) pairs (None = the value is not a string:
+   GetStringValue returns ""), and ScopeSpans, each a list of spans.  The service name is a variable
+   declared INSIDE the loop over the resources ("var service string"): it starts as "" for every
+   resource and is set by each "service.name" attribute in turn (the last one wins). *)
+Record otlp_resource := mkRes {
+  or_attrs : option (list (str * option str));
+  or_scopes : list (list otlp_span) }.
+
+Definition service_name_key : str := [115;101;114;118;105;99;101;46;110;97;109;101].   (* "service.name" *)
+
+Definition resource_service (r : otlp_resource) : str :=
+  match or_attrs r with
+  | None => []
+  | Some attrs =>
+    fold_left (fun service kv =>
+                 if str_eqb (fst kv) service_name_key
+                 then (match snd kv with Some v => v | None => [] end)
+                 else service) attrs []
+  end.
+
+Definition resource_events (r : otlp_resource) : list span :=
+  map (span_to_event (resource_service r)) (concat (or_scopes r)).
+
+(* the events stored for one request, in ingest order *)
+Definition request_events (req : list otlp_resource) : list span := flat_map resource_events req.
+
 (* ------------------------------------------------------------------ *)
 (* span tree (ProcessGanttChartRequest + BuildSpanTree)                *)
 (* ------------------------------------------------------------------ *)
